@@ -68,6 +68,13 @@ def gen_cases(rng, tier):
         spec["objective"] = ocpgen.gen_objective(rng, spec, 1, allow=["at_tf", "sum"])
         for (f, pos) in faults_for(spec):
             cases.append({"kind": "sampling", "spec": spec, "fault": f, "pos": pos, "base": b})
+        if b % 3 == 0:
+            # the same faults inside a sub-stage of a multi-stage OCP
+            for (f, pos) in faults_for(spec):
+                if f in ("missing_der", "missing_value", "no_method", "signal_objective", "bad_grid_subject_to",
+                         "foreign_rhs", "foreign_constraint", "set_value_state", "set_initial_param", "DT_in_ode",
+                         "T_in_ode", "alg_explicit"):
+                    cases.append({"kind": "substage", "spec": spec, "fault": f, "pos": pos, "base": b})
     nsp = 3 if tier == "quick" else 40
     for b in range(nsp):
         base = spline_base(rng)
@@ -96,8 +103,9 @@ def _remove_sentinel(saved):
     ca.Opti.solve, ca.Opti.solve_limited = saved
 
 
-def build_faulty(spec, fault, pos):
-    """Declare the OCP through the public API with one fault injected; returns the ocp and a symbol to sample."""
+def build_faulty(spec, fault, pos, substage=False):
+    """Declare the OCP through the public API with one fault injected; returns the ocp and a symbol to sample.
+    substage=True: the specification becomes a stage of a state-less parent OCP."""
     import casadi as ca
     import rockit
     from ..gen import build
@@ -106,11 +114,15 @@ def build_faulty(spec, fault, pos):
         a = build.horizon_arg(spec[key])
         if a is not None:
             kw[key] = a
-    ocp = rockit.Ocp(**kw)
-    b = build.Built(ocp, ocp, spec)
+    if substage:
+        ocp = rockit.Ocp()
+        st = ocp.stage(**kw)
+    else:
+        ocp = rockit.Ocp(**kw)
+        st = ocp
+    b = build.Built(ocp, st, spec)
     build.declare_symbols(b)
     build.declare_horizon(b)
-    st = ocp
     foreign = ca.MX.sym("foreign")
     x0sym = b.syms[spec["states"][0]["name"]]
     x0el = x0sym[0] if x0sym.numel() > 1 else x0sym
@@ -179,9 +191,11 @@ def build_faulty(spec, fault, pos):
     if fault == "set_initial_foreign":
         st.set_initial(foreign, 1)
     if fault != "no_method":
-        ocp.method(build.make_method(spec["method"]))
+        st.method(build.make_method(spec["method"]))
     if fault != "no_solver":
         ocp.solver("ipopt", {"ipopt.print_level": 0, "print_time": False})
+    if substage:
+        return ocp, (st, x0sym)
     return ocp, x0sym
 
 
@@ -221,10 +235,13 @@ def attempt(make, fault):
     try:
         try:
             ocp, sym = make()
+            target = ocp
+            if isinstance(sym, tuple):
+                target, sym = sym
             if fault == "bad_grid_sample":
-                ocp.sample(sym, grid=GRID_SAMPLE[0])
+                target.sample(sym, grid=GRID_SAMPLE[0])
             else:
-                ocp.sample(sym, grid="control")
+                target.sample(sym, grid="control")
             ocp.solve()
             return "completed", "solve() returned"
         except SolverReached:
@@ -247,8 +264,10 @@ def run_case(case):
     else:
         spec = case["spec"]
         meth = C.config_sig(spec).split("|")[0]
-        mk_ok = lambda: build_faulty(spec, None, 0)
-        mk_bad = lambda: build_faulty(spec, fault, pos)
+        sub = case["kind"] == "substage"
+        meth = ("sub:" if sub else "") + meth
+        mk_ok = lambda: build_faulty(spec, None, 0, sub)
+        mk_bad = lambda: build_faulty(spec, fault, pos, sub)
     res = {"sig": "%s|pos%d|%s" % (fault, pos, meth), "evals": 0, "violations": [],
            "counters": {"faults_rejected": 0, "base_accepted": 0}}
     out, det = attempt(mk_ok, None)
